@@ -2,11 +2,12 @@ CONSTANTS
   NameSeq <- N2
   Slots = {1, 2}
   MaxNodes = 8
-  MaxDepth = 7
+  MaxDepth = 4
   Actions <- CoreActions
   InitDeclared = 2
+CONSTANT BuildFuns <- FunsD
 INIT Init
-NEXT Next
+NEXT NextB
 CONSTRAINT Bound
 INVARIANT InvCanonical
 INVARIANT InvDenInjective
